@@ -226,11 +226,13 @@ Proof.
   intros H. rewrite close_cb_eq.
   assert (H1 : TI d (close_fn d (cb_enter 2 w))) by apply close_fn_time, cb_enter_time, H.
   set (w1 := close_fn d (cb_enter 2 w)) in *.
-  unfold close_hand. destruct (_ && _); [|exact H1]. cbv zeta.
-  eapply TI_neutral; [exact H1| | |].
-  - destruct (a_newbuf _); (eapply ext_logs; [reflexivity|]); repeat constructor.
-  - destruct (a_newbuf _); reflexivity.
-  - destruct (a_newbuf _); reflexivity.
+  unfold close_hand. destruct (_ && _); [|exact H1].
+  assert (H2 : TI d (close_give d (hd_ans w) w1)).
+  { unfold close_give. cbv zeta. eapply TI_neutral; [exact H1| | |].
+    - destruct (a_newbuf _); (eapply ext_logs; [reflexivity|]); repeat constructor.
+    - destruct (a_newbuf _); reflexivity.
+    - destruct (a_newbuf _); reflexivity. }
+  destruct (a_eager _); [apply open_fn_time|]; exact H2.
 Qed.
 
 Lemma with_use_ts_FI d f w :
@@ -388,7 +390,9 @@ Proof.
   rewrite close_cb_eq.
   assert (H : c_last_ts (w_c (close_fn d (cb_enter 2 w))) = c_last_ts (w_c w)).
   { rewrite close_fn_last. unfold cb_enter; up; togs; reflexivity. }
-  unfold close_hand. destruct (_ && _); [|exact H]. cbv zeta. destruct (a_newbuf _); up; exact H.
+  unfold close_hand. destruct (_ && _); [|exact H].
+  destruct (close_give_pk d (hd_ans w) (close_fn d (cb_enter 2 w))) as [_ [_ [_ [_ [L _]]]]].
+  destruct (a_eager _); [rewrite open_fn_last|]; congruence.
 Qed.
 
 Lemma reserve_last d w n : c_last_ts (w_c (snd (reserve d w n))) = c_last_ts (w_c w).
